@@ -175,16 +175,17 @@ REGISTRY = {
     ),
     "C16": dict(
         jobs=lambda tier, seed: __import__("vf.props.solvers", fromlist=["x"]).configs(tier),
-        job_of_config=lambda cfg: ("vf.props.secondq", "c16_2nd_quant") if cfg.get("_job") == "2nd_quant" else (("vf.props.implicit", "c16_direct") if cfg.get("_job") == "direct" else ("vf.props.solvers", "c16_diagonal")),
+        job_of_config=lambda cfg: ("vf.props.secondq", "c16_2nd_quant") if cfg.get("_job") == "2nd_quant" else (("vf.props.implicit", "c16_direct") if cfg.get("_job") == "direct" else ("vf.props.solvers", "c16_diagonal_sparse" if cfg.get("branch") == "sparse" else "c16_diagonal")),
         technique="the real solver callables are executed on symbolic right-hand sides (and symbolic energies in the sympy branch); z3 decides residual H0_i V - V H0_j - Y != 0 entrywise "
-        "(V = 0 where energies coincide inside a block)",
+        "(V = 0 where energies coincide inside a block); scipy.sparse right-hand sides cannot carry symbolic payload: that sub-claim is an exhaustive concrete enumeration "
+        "(every sparsity pattern x csr/csc/coo x dyadic values, exact residual)",
         bounds={
             "quick": "solve_sylvester_diagonal numpy branch (dyadic real/complex spectra, degenerate levels, zero block, 1-3 blocks of dims 1-3, both orientations and diagonal blocks) and sympy branch "
             "(symbolic / rational / complex energies, equal symbols -> zoo handling, non-square blocks, zero block); second-quantised solver on 6 operator families; "
             "solve_sylvester_direct / direct_greens_function (exact-LU stub): both orientations, degenerate and biorthogonal explicit levels, real/complex eigenvectors, dim 3-4",
             "thorough": "adds 3|3|1 symbolic and 3|2 numeric spectra",
         },
-        assumptions=COMMON_ASSUMPTIONS + ["scipy.sparse branch of the diagonal solver, KPM greens_function/rescale and real sparse-LU accuracy are outside (compiled float kernels); see not_applicable notes in DESIGN.md"],
+        assumptions=COMMON_ASSUMPTIONS + ["scipy.sparse branch of the diagonal solver only by concrete enumeration (dims <= 3, dyadic values); KPM greens_function/rescale and real sparse-LU accuracy are outside (compiled float kernels); see not_applicable notes in DESIGN.md"],
         timeout_s={"quick": 300, "thorough": 900},
     ),
     "C20": dict(
